@@ -135,6 +135,46 @@ def h_step(ctx, kind):
     return obs
 
 
+def h_sync_reply(ctx, kind, via):
+    """the reply arrives while the requesting thread is still inside its send (a fast peer's answer delivered by the network thread, or a
+    loopback transport): it must find the request registered.  via="interface": the application-level registry; via="plain": a plain
+    application layer on top, the protocol layers' own registries turn the result into an entity"""
+    if via == "interface":
+        st, bottom, app, mgr = _stack()
+    else:
+        st, bottom, app, mgr = ST.build(enc=True, **ST.FLAG_SETS["all"])
+        from yowsup.layers.protocol_iq import YowIqProtocolLayer
+        st.setProp(YowIqProtocolLayer.PROP_PING_INTERVAL, 0)
+    req, body = _request(kind)
+    is_result = ctx.flag("reply_is_result")
+    orig_send = bottom.send
+    answered = []
+
+    def send(node):
+        orig_send(node)
+        if node.tag == "iq" and not answered:
+            answered.append(node)
+            bottom.inject(_reply(hooks.dict_get(node.attributes, "id"), is_result, body))
+    bottom.send = send
+    raised = None
+    try:
+        if via == "interface":
+            app.request(req, "r")
+        else:
+            app.toLower(req)
+    except Exception as e:
+        raised = e
+    obs = [("the request leaves once and is answered during the send", len(answered) == 1)]
+    if via == "interface":
+        ok, err = _counts(app, "r")
+        obs.append(("a reply delivered during the send reaches the callback exactly once (ok %d, err %d)" % (len(ok), len(err)),
+                    (len(ok), len(err)) == ((1, 0) if is_result else (0, 1)) and raised is None))
+        obs.append(("... and does not also surface as an ordinary stanza", len(app.other) == 0))
+    elif is_result:
+        obs.append(("a result delivered during the send surfaces as exactly one entity (got %d)" % len(app.up), len(app.up) == 1 and raised is None))
+    return obs
+
+
 def _iff(concrete, term):
     if isinstance(term, bool):
         return concrete == term
@@ -290,6 +330,8 @@ def finding_key(case, label, values, where):
     m = re.match(r"step\[(.+)\]", case)
     if m and label == "error-callback-iff-matching-error":
         return "C08|error reply to an application %s request is swallowed by the protocol layer" % m.group(1)
+    if case.startswith("sync-reply[contact-sync") and values and values.get("reply_is_result") is False:
+        return "C08|error reply to an application contact-sync request is swallowed by the protocol layer"
     if case.startswith("history[") and values:
         # the same root cause seen through a history: an error delivered to an outstanding contact-sync request
         kinds = _history_kinds(case)
@@ -336,6 +378,8 @@ def cases(tier):
             cs.append(dict(name="history[3req,3del,first=%s]" % a, fn=_first_kind(a), args=(3, 3, ("lastseen", "group-info", "picture-get", "contact-sync")), max_paths=400000, timeout_s=3400, weight=500))
         cs.append(dict(name="history[2req,3del,6kinds]", fn=h_history, args=(2, 3, ("lastseen", "group-info", "contact-sync", "picture-get", "media-upload", "group-create")), max_paths=50000, timeout_s=1200, weight=100))
     cs.append(dict(name="nonreply[receipt/ack/notification with any id]", fn=h_nonreply))
+    for k in ("ping", "lastseen", "group-info", "media-upload", "contact-sync", "picture-get"):
+        cs.append(dict(name="sync-reply[%s,interface]" % k, fn=h_sync_reply, args=(k, "interface")))
     cs.append(dict(name="internal[key-upload]", fn=h_internal_keyupload))
     cs.append(dict(name="internal[key-fetch]", fn=h_internal_keyfetch))
     return cs
